@@ -121,6 +121,26 @@ class TriggerHandler:
             # a config update that was still queued when we were shut down must not bring the tracepoints back
             return
         self._tp_config = new_config
+        if len(new_config) > 0 and not self._config.NO_TRACE:
+            self.__trace_running_calls()
+
+    def __trace_running_calls(self):
+        """
+        Switch the trace events on for the function calls that are already in progress.
+
+        While there are no tracepoints we return None for a 'call' event, so python sends us no further events for
+        that call. A tracepoint that arrives later - they always arrive later, from the poll - for a line of a
+        function that is still running (a main loop, a request loop) would never be reached in that call.
+        """
+        try:
+            # noinspection PyUnresolvedReferences,PyProtectedMember
+            for frame in sys._current_frames().values():
+                while frame is not None:
+                    if frame.f_trace is None:
+                        frame.f_trace = self.trace_call
+                    frame = frame.f_back
+        except BaseException:
+            logging.exception("Cannot trace the calls in progress")
 
     def trace_call(self, frame: FrameType, event: str, arg):
         """
